@@ -36,8 +36,13 @@ class Script:
         self.tracks = {}          # conn -> list of tokens (per-connection order is kept when tracks are merged)
         self.order = []           # explicit global order when given
         self.canaries = []
+        self.bad = []             # the deliberately corrupted messages (for the reason-code statistics only)
         self.nconn = 0
         self.serial = 100
+        # one write = at most what the transport takes between two dispatches (4096 bytes), so that the number of
+        # messages dispatched after one that closes the sender does not depend on how the kernel hands a big write over;
+        # families whose senders are registered (nothing closes them but an invalid stream) use big writes
+        self.maxw = 60000 if kind in ("flood", "oversized", "quota", "blast") else 4096
 
     def conn(self):
         self.nconn += 1
@@ -45,8 +50,10 @@ class Script:
         return self.nconn
 
     def w(self, c, data):
-        if data:
-            self.tracks[c].append("W%d:%s" % (c, bytes(data).hex()))
+        # the extracted model recurses over byte lists: keep single writes moderate (the daemon reads 2048 bytes at a time anyway)
+        data = bytes(data)
+        for i in range(0, len(data), self.maxw):
+            self.tracks[c].append("W%d:%s" % (c, data[i:i + self.maxw].hex()))
 
     def x(self, c):
         self.tracks[c].append("X%d" % c)
@@ -94,8 +101,11 @@ class Script:
         return out
 
     def done(self, events=None):
-        return {"kind": self.kind, "cfg": self.cfg, "events": events if events is not None else self.merged(),
-                "canaries": [c.hex() for c in self.canaries]}
+        d = {"kind": self.kind, "cfg": self.cfg, "events": events if events is not None else self.merged(),
+             "canaries": [c.hex() for c in self.canaries]}
+        if self.bad:
+            d["bad"] = [b.hex() for b in self.bad if len(b) <= 70000]
+        return d
 
 
 # ---------------------------------------------------------------------------
@@ -157,6 +167,7 @@ def gen_mutation(rnd):
             stream += s.valid_msg()[0]
         bad, _cn = s.valid_msg()
         bad, _d = mutate(rnd, bad)
+        s.bad.append(bad)
         stream += bad
         for _ in range(rnd.choice((0, 1, 2))):
             stream += s.valid_msg()[0]
